@@ -175,7 +175,7 @@ def _tree_hooks(e):
 # module -> { rule name -> (event type or None, function, property ids that must report it) }
 RULES = {
     "DiodeContractTrace": {
-        "delivered-bytes-not-written": ("DStart", _setf("m", "never-written"), ["C10"]),
+        "delivered-bytes-not-written": ("DStart", _setf("m", 987654), ["C10"]),
         "bytes-changed-during-write": ("DEnd", _setf("stable", False), ["C10"]),
         "alert-exceeds-claimed": ("Alert", _add("n", 100000), ["C10"]),
         "close-without-closing-writer": ("CloseRet", _setf("wclosed", False), ["C11"]),
@@ -227,7 +227,7 @@ RULES = {
     "AllocChainTrace": {
         "one-allocation": (None, lambda e: _add("allocs", 1)(e) if e.get("kind") != "pool" else None, ["C07"]),
         "pool-get-without-put": (None, lambda e: _add("gets", 1)(e) if e.get("kind") == "pool" else None, ["C07"]),
-        "second-write": (None, _add("writes", 1), ["C07"]),
+        "second-write": (None, _add("writes_per_run", 1), ["C07"]),
     },
     "ValueDocTrace": {
         "entry-points-disagree": ("Val", _value_raw, ["C02"]),
@@ -239,7 +239,8 @@ RULES = {
         "key-lost": (None, _droplast("ikeys"), ["C09"]),
         "value-representation": (None, _valbad, ["C09"]),
         "decoded-value-differs": (None, _jdiff, ["C08"]),
-        "decoded-key-lost": (None, _droplast("dkeys"), ["C08"]),
+        # (a record that already carries a known-finding signature is reported as that finding: pick a clean one)
+        "decoded-key-lost": (None, lambda e: _droplast("dkeys")(e) if e.get("nw") == 1 and not e.get("sig") and e.get("jdiff") == [] else None, ["C08"]),
         "stream-line-lost": ("Stream", _add("lines", -1), ["C08"]),
     },
     "CborStream": {
